@@ -293,3 +293,169 @@ Proof.
         unfold frame_eqb. rewrite list_eqb_refl. reflexivity.
   - unfold from_usart. rewrite Ed. reflexivity.
 Qed.
+
+(* ---------- C15 / C16 / C17: the PRO checkers accept the model's observations of every history ---------- *)
+Require Import RP.Model.Protocol RP.Lemmas.Registry RP.Glue.StreamLink RP.Glue.StreamProto.
+Lemma existsb_eqb_In id ks : existsb (fun k => k =? id) ks = true <-> In id ks.
+Proof.
+  rewrite existsb_exists. split; [intros [x [Hx He]]; apply N.eqb_eq in He; subst x; exact Hx|intros H; exists id; split; [exact H|apply N.eqb_refl]].
+Qed.
+Lemma pro_walk_accepts_model own : forall ops t step, sorted (keys t) -> snd (pro_walk own t ops (pro_run own t ops) step) = [].
+Proof.
+  induction ops as [|o ops IH]; intros t step Hs; [reflexivity|].
+  cbn [pro_run]. destruct o as [h|id|gs ans|p ans]; cbn [op_obs].
+  - unfold add_handler. cbn [pro_walk].
+    destruct (next_id_fresh t Hs) as [Hfresh _].
+    assert (Ef: existsb (fun k => k =? next_id t) (keys t) = false).
+    { destruct (existsb (fun k => k =? next_id t) (keys t)) eqn:E; [|reflexivity]. apply existsb_eqb_In in E. contradiction. }
+    rewrite Ef. cbn [negb]. destruct (insert_keys_fresh (next_id t) h t Hs Hfresh) as [Hs' _].
+    specialize (IH (insert (next_id t) h t) (step + 1) Hs').
+    destruct (pro_walk own (insert (next_id t) h t) ops (pro_run own (insert (next_id t) h t) ops) (step + 1)) as [vs fs]. cbn [snd] in *. exact IH.
+  - unfold remove_handler. destruct (remove id t) as [t'|] eqn:Er.
+    + destruct (remove_keys id t t' Hs Er) as [Hin [Hs' _]]. cbn [pro_walk show_pret]. rewrite Er.
+      assert (El: existsb (fun k => k =? id) (keys t) = true) by (apply existsb_eqb_In; exact Hin). rewrite El.
+      specialize (IH t' (step + 1) Hs'). destruct (pro_walk own t' ops (pro_run own t' ops) (step + 1)) as [vs fs]. cbn [snd] in *.
+      rewrite list_eqb_refl. exact IH.
+    + cbn [pro_walk show_pret perr_code]. rewrite Er.
+      assert (El: existsb (fun k => k =? id) (keys t) = false).
+      { destruct (existsb (fun k => k =? id) (keys t)) eqn:E; [|reflexivity]. apply existsb_eqb_In in E. apply remove_none in Er. contradiction. }
+      rewrite El. specialize (IH t (step + 1) Hs). destruct (pro_walk own t ops (pro_run own t ops) (step + 1)) as [vs fs]. cbn [snd] in *.
+      rewrite list_eqb_refl. exact IH.
+  - cbn [pro_walk]. specialize (IH t (step + 1) Hs). destruct (pro_walk own t ops (pro_run own t ops) (step + 1)) as [vs fs]. cbn [snd] in *.
+    rewrite list_eqb_refl. exact IH.
+  - cbn [pro_walk]. specialize (IH t (step + 1) Hs). destruct (pro_walk own t ops (pro_run own t ops) (step + 1)) as [vs fs]. cbn [snd] in *.
+    rewrite list_eqb_refl. exact IH.
+Qed.
+Lemma parse_lists_show : forall ls r, parse_lists_n (length ls) (concat (map (fun l => nlen l :: l) ls) ++ r) = Some (ls, r).
+Proof.
+  induction ls as [|l ls IH]; intros r; [reflexivity|]. cbn [length map concat parse_lists_n app]. rewrite <- app_assoc, take_app, IH. reflexivity.
+Qed.
+Lemma parse_obs_show ls : parse_obs_lists (show_lists ls) = Some ls.
+Proof.
+  unfold parse_obs_lists, show_lists, nlen. rewrite Nat2N.id. rewrite <- (app_nil_r (concat _)), parse_lists_show. reflexivity.
+Qed.
+Theorem pro_checkers_accept_model case own ops : pro_split case = Some (own, ops) ->
+  ok_C15 case (run_PRO case) = [] /\ ok_C16 case (run_PRO case) = [] /\ ok_C17 case (run_PRO case) = [].
+Proof.
+  intros Hc. unfold ok_C15, ok_C16, ok_C17, pro_eval, run_PRO. rewrite Hc, parse_obs_show.
+  assert (Hs: sorted (keys [])) by constructor.
+  pose proof (pro_walk_accepts_model own ops [] 0 Hs) as H.
+  destruct (pro_walk own [] ops (pro_run own [] ops) 0) as [vs fs]. cbn [snd] in H. subst fs. repeat split; reflexivity.
+Qed.
+Lemma ok_C15_accepts_model case own ops : pro_split case = Some (own, ops) -> ok_C15 case (run_PRO case) = [].
+Proof. intros H. apply (pro_checkers_accept_model case own ops H). Qed.
+Lemma ok_C16_accepts_model case own ops : pro_split case = Some (own, ops) -> ok_C16 case (run_PRO case) = [].
+Proof. intros H. apply (pro_checkers_accept_model case own ops H). Qed.
+Lemma ok_C17_accepts_model case own ops : pro_split case = Some (own, ops) -> ok_C17 case (run_PRO case) = [].
+Proof. intros H. apply (pro_checkers_accept_model case own ops H). Qed.
+
+(* ---------- C18: the EXC checker accepts the model's observation ---------- *)
+Require Import RP.Lemmas.ProtocolLemmas.
+Definition tev_tag (e: tev) : list N := match e with TWait => [2] | TGet _ => [3] end.
+Definition show_r1 (r: out event perr) : list N :=
+  match r with Val e => 0 :: show_lists [event_fields e] | Fail e => [1; perr_code e] | Panic => [2] | Hang => [3] end.
+Lemma drain1_first_match own cap k : forall gs fuel ss st tr n, (length gs < fuel)%nat ->
+  exists tr' gs', drain1 fuel own cap k (mkI gs ss st) tr = (fst (fst (drain1 fuel own cap k (mkI gs ss st) tr)), tr ++ tr', mkI gs' ss st) /\
+    show_r1 (fst (fst (drain1 fuel own cap k (mkI gs ss st) tr))) = fst (first_match own cap k gs n) /\
+    map tev_tag tr' = repeat [3] (snd (first_match own cap k gs n) - n) /\
+    (n < snd (first_match own cap k gs n))%nat /\
+    length gs' = (length gs - (snd (first_match own cap k gs n) - n))%nat.
+Proof.
+  induction gs as [|g gs IH]; intros fuel ss st tr n Hf.
+  - destruct fuel as [|f]; [cbn in Hf; lia|]. cbn [drain1 first_match fst snd]. unfold iget. cbn [i_gets].
+    exists [TGet GNone], []. cbn [fst snd show_r1 perr_code map tev_tag length]. replace (S n - n)%nat with 1%nat by lia. repeat split; try reflexivity; lia.
+  - destruct fuel as [|f]; [cbn in Hf; lia|]. cbn [length] in Hf. cbn [drain1]. rewrite iget_cons.
+    destruct g as [p| |c].
+    + cbn [first_match]. destruct (matches own cap k p) as [e|] eqn:Em.
+      * exists [TGet (GPacket p)], gs. cbn [fst snd show_r1 map tev_tag length]. replace (S n - n)%nat with 1%nat by lia. repeat split; try reflexivity; lia.
+      * destruct (IH f ss st (tr ++ [TGet (GPacket p)]) (S n) ltac:(lia)) as [tr' [gs' [H1 [H2 [H3 [H4 H5]]]]]].
+        exists (TGet (GPacket p) :: tr'), gs'. rewrite H1 at 1. cbn [fst snd]. rewrite <- app_assoc. cbn [app].
+        split; [reflexivity|]. split; [exact H2|]. split.
+        { cbn [map tev_tag]. rewrite H3. replace (snd (first_match own cap k gs (S n)) - n)%nat with (S (snd (first_match own cap k gs (S n)) - S n)) by lia. reflexivity. }
+        split; [lia|]. cbn [length]. lia.
+    + exists [TGet GNone], gs. cbn [first_match fst snd show_r1 perr_code map tev_tag length]. replace (S n - n)%nat with 1%nat by lia. repeat split; try reflexivity; lia.
+    + exists [TGet (GErr c)], gs. cbn [first_match fst snd show_r1 perr_code map tev_tag length]. replace (S n - n)%nat with 1%nat by lia. repeat split; try reflexivity; lia.
+Qed.
+Definition show_rN (r: out (list event) perr) : list N :=
+  match r with Val es => 0 :: show_lists (map event_fields es) | Fail e => [1; perr_code e] | Panic => [2] | Hang => [3] end.
+Lemma drainN_all_matches own cap k : forall gs fuel ss st tr n acc, (length gs < fuel)%nat ->
+  exists tr' gs', drainN fuel own cap k (mkI gs ss st) tr acc = (fst (fst (drainN fuel own cap k (mkI gs ss st) tr acc)), tr ++ tr', mkI gs' ss st) /\
+    show_rN (fst (fst (drainN fuel own cap k (mkI gs ss st) tr acc))) = fst (all_matches own cap k gs n (map event_fields acc)) /\
+    map tev_tag tr' = repeat [3] (snd (all_matches own cap k gs n (map event_fields acc)) - n) /\
+    (n < snd (all_matches own cap k gs n (map event_fields acc)))%nat /\
+    length gs' = (length gs - (snd (all_matches own cap k gs n (map event_fields acc)) - n))%nat.
+Proof.
+  induction gs as [|g gs IH]; intros fuel ss st tr n acc Hf.
+  - destruct fuel as [|f]; [cbn in Hf; lia|]. cbn [drainN all_matches fst snd]. unfold iget. cbn [i_gets].
+    exists [TGet GNone], []. cbn [fst snd show_rN map tev_tag length]. replace (S n - n)%nat with 1%nat by lia. repeat split; try reflexivity; lia.
+  - destruct fuel as [|f]; [cbn in Hf; lia|]. cbn [length] in Hf. cbn [drainN]. rewrite iget_cons.
+    destruct g as [p| |c].
+    + cbn [all_matches].
+      set (acc' := match matches own cap k p with Some e => acc ++ [e] | None => acc end).
+      assert (Ha: match matches own cap k p with Some e => map event_fields acc ++ [event_fields e] | None => map event_fields acc end = map event_fields acc').
+      { unfold acc'. destruct (matches own cap k p); [rewrite map_app; reflexivity|reflexivity]. }
+      rewrite Ha.
+      destruct (IH f ss st (tr ++ [TGet (GPacket p)]) (S n) acc' ltac:(lia)) as [tr' [gs' [H1 [H2 [H3 [H4 H5]]]]]].
+      exists (TGet (GPacket p) :: tr'), gs'. rewrite H1 at 1. cbn [fst snd]. rewrite <- app_assoc. cbn [app].
+      split; [reflexivity|]. split; [exact H2|]. split.
+      { cbn [map tev_tag]. rewrite H3. replace (snd (all_matches own cap k gs (S n) (map event_fields acc')) - n)%nat with (S (snd (all_matches own cap k gs (S n) (map event_fields acc')) - S n)) by lia. reflexivity. }
+      split; [lia|]. cbn [length]. lia.
+    + exists [TGet GNone], gs. cbn [all_matches fst snd show_rN map tev_tag length]. replace (S n - n)%nat with 1%nat by lia. repeat split; try reflexivity; lia.
+    + exists [TGet (GErr c)], gs. cbn [all_matches fst snd show_rN perr_code map tev_tag length]. replace (S n - n)%nat with 1%nat by lia. repeat split; try reflexivity; lia.
+Qed.
+
+Lemma isend_gets i p : i_gets (snd (isend i p)) = i_gets i.
+Proof. unfold isend. destruct (i_sends i); reflexivity. Qed.
+Lemma send_packet_shape own t p i :
+  (fst (fst (send_packet own t p i)) = Val tt \/ exists e, fst (fst (send_packet own t p i)) = Fail e) /\
+  i_gets (snd (send_packet own t p i)) = i_gets i.
+Proof.
+  unfold send_packet. destruct (p_addr p =? own) eqn:Ea.
+  - rewrite handle_packet_spec. destruct (isend_all_spec (dispatch_sent own t true) i) as [_ [Hg _]].
+    destruct (own =? BROADCAST); cbn [andb negb].
+    + destruct (isend (isend_all i (dispatch_sent own t true)) p) as [a i2] eqn:Ei. cbn [fst snd].
+      assert (Hg2: i_gets i2 = i_gets i) by (rewrite <- Hg; change i2 with (snd (a, i2)); rewrite <- Ei; apply isend_gets).
+      split; [destruct (a =? 0); [left; reflexivity|right; eexists; reflexivity]|exact Hg2].
+    + cbn [fst snd]. split; [left; reflexivity|exact Hg].
+  - cbn [andb]. destruct (isend i p) as [a i2] eqn:Ei. cbn [fst snd].
+    assert (Hg2: i_gets i2 = i_gets i) by (change i2 with (snd (a, i2)); rewrite <- Ei; apply isend_gets).
+    split; [destruct (a =? 0); [left; reflexivity|right; eexists; reflexivity]|exact Hg2].
+Qed.
+Lemma map_tag_repeat n : map tev_tag (repeat (TGet GNone) n) = repeat [3] n.
+Proof. induction n as [|n IH]; [reflexivity|]. cbn [repeat map tev_tag]. rewrite IH. reflexivity. Qed.
+Lemma show_trace_tags sent tr1 tr2 : map tev_tag tr1 = map tev_tag tr2 -> show_trace sent tr1 = show_trace sent tr2.
+Proof. intros H. unfold show_trace. change (fun e : tev => match e with TWait => [2] | TGet _ => [3] end) with tev_tag. rewrite H. reflexivity. Qed.
+
+Theorem ok_C18_accepts_model case own cap k multi p t gs ans :
+  exc_split case = Some (own, cap, k, multi, p, t, gs, ans) -> ok_C18 case (run_EXC case) = [].
+Proof.
+  intros Hc. unfold ok_C18, run_EXC. rewrite Hc.
+  destruct (send_packet_shape own t p (mkI gs ans [])) as [Hret Hgets]. cbn [i_gets] in Hgets.
+  destruct multi.
+  - unfold exchangeN. destruct (send_packet own t p (mkI gs ans [])) as [[sret slog] si] eqn:Es. cbn [fst snd] in Hret, Hgets.
+    destruct si as [g2 s2 st2]. cbn [i_gets] in Hgets. subst g2.
+    destruct Hret as [->|[er ->]].
+    + cbn [i_gets i_sent].
+      destruct (drainN_all_matches own cap k gs (S (length gs)) s2 st2 [TWait] 0%nat [] ltac:(lia)) as [tr' [gs' [H1 [H2 [H3 [H4 H5]]]]]].
+      cbn [map] in H2, H3, H4, H5. destruct (all_matches own cap k gs 0 []) as [res used] eqn:Eam. cbn [fst snd] in H2, H3, H4, H5.
+      rewrite H1. cbn [i_sent i_gets]. change (match fst (fst (drainN (S (length gs)) own cap k (mkI gs s2 st2) [TWait] [])) with
+             | Val es => 0 :: show_lists (map event_fields es) | Fail e => [1; perr_code e] | Panic => [2] | Hang => [3] end)
+        with (show_rN (fst (fst (drainN (S (length gs)) own cap k (mkI gs s2 st2) [TWait] [])))).
+      rewrite H2. rewrite (show_trace_tags st2 ([TWait] ++ tr') (TWait :: repeat (TGet GNone) used))
+        by (cbn [app map tev_tag]; rewrite H3, map_tag_repeat, Nat.sub_0_r; reflexivity).
+      unfold nlen. rewrite H5, Nat.sub_0_r. rewrite list_eqb_refl. reflexivity.
+    + cbn [i_sent i_gets perr_code]. rewrite list_eqb_refl. reflexivity.
+  - unfold exchange1. destruct (send_packet own t p (mkI gs ans [])) as [[sret slog] si] eqn:Es. cbn [fst snd] in Hret, Hgets.
+    destruct si as [g2 s2 st2]. cbn [i_gets] in Hgets. subst g2.
+    destruct Hret as [->|[er ->]].
+    + cbn [i_gets i_sent].
+      destruct (drain1_first_match own cap k gs (S (length gs)) s2 st2 [TWait] 0%nat ltac:(lia)) as [tr' [gs' [H1 [H2 [H3 [H4 H5]]]]]].
+      destruct (first_match own cap k gs 0) as [res used] eqn:Efm. cbn [fst snd] in H2, H3, H4, H5.
+      rewrite H1. cbn [i_sent i_gets]. change (match fst (fst (drain1 (S (length gs)) own cap k (mkI gs s2 st2) [TWait])) with
+             | Val e => 0 :: show_lists [event_fields e] | Fail e => [1; perr_code e] | Panic => [2] | Hang => [3] end)
+        with (show_r1 (fst (fst (drain1 (S (length gs)) own cap k (mkI gs s2 st2) [TWait])))).
+      rewrite H2. rewrite (show_trace_tags st2 ([TWait] ++ tr') (TWait :: repeat (TGet GNone) used))
+        by (cbn [app map tev_tag]; rewrite H3, map_tag_repeat, Nat.sub_0_r; reflexivity).
+      unfold nlen. rewrite H5, Nat.sub_0_r. rewrite list_eqb_refl. reflexivity.
+    + cbn [i_sent i_gets perr_code]. rewrite list_eqb_refl. reflexivity.
+Qed.
